@@ -598,6 +598,11 @@ func (fc *FnCtx) refBound(arr string, mem bool) {
 
 func (fc *FnCtx) load(st *State, loc *Loc) V {
 	v := V{Ty: loc.Ty}
+	if loc.Kind == locField && strings.HasPrefix(loc.S, "glob:") {
+		if k, ok := fc.e.errGlobals[loc.S]; ok {
+			return fc.errGlobal(k, loc.Ty)
+		}
+	}
 	cs := fc.e.comps(loc.Ty)
 	for _, c := range cs {
 		if c.Ref {
@@ -624,6 +629,23 @@ func (fc *FnCtx) load(st *State, loc *Loc) V {
 		}
 	}
 	return v
+}
+
+// errGlobal: the value of an error variable that findErrGlobals showed to be a constant.
+func (fc *FnCtx) errGlobal(k int, ty types.Type) V {
+	name := fmt.Sprintf("errg!%d", k)
+	if !fc.declared[name] {
+		fc.declare(name, sInt)
+		fc.assumeGlobal(sx("and", sx(">", name, "0"), sx("<", name, "ac0")))
+		for j := range fc.e.errGlobalNames {
+			o := fmt.Sprintf("errg!%d", j)
+			if j != k && fc.declared[o] {
+				fc.assumeGlobal(sx("not", sx("=", name, o)))
+			}
+		}
+	}
+	tag := fc.tagTerm(types.NewPointer(fc.e.errorStringType()))
+	return V{Ty: ty, T: []string{tag, name}}
 }
 
 func (fc *FnCtx) store(st *State, loc *Loc, v V) {
